@@ -29,6 +29,7 @@ import (
 	"encoding/json"
 	"flag"
 	"fmt"
+	"math/big"
 	"math/rand"
 	"os"
 	"sort"
@@ -309,8 +310,11 @@ func (sc *scenario) addTriple(s int, p *pval, o *oval) {
 	sc.univ = append(sc.univ, &tval{s: s, p: p, o: o, t: t, str: str})
 }
 
-func randomScenario(r *rand.Rand, usize int) *scenario {
+func randomScenario(r *rand.Rand, usize int, wide bool) *scenario {
 	sc := &scenario{nNames: 3, nameStrs: []string{"?a", "?b", "?A"}}
+	if wide {
+		return wideScenario(r, sc, usize)
+	}
 	// sub-pools
 	nn := 2 + r.Intn(2)
 	sc.nodeIx = r.Perm(len(nodes))[:nn]
@@ -352,8 +356,72 @@ func randomScenario(r *rand.Rand, usize int) *scenario {
 			}
 		}
 	}
-	if len(sc.univ) > 60 {
-		sc.univ = sc.univ[:60]
+	sc.finish()
+	return sc
+}
+
+// wideScenario: a universe of a few hundred triples over the whole vocabulary, so that graphs, buckets and lookup
+// results hold hundreds of elements; the query pools are small random parts of the vocabulary.
+func wideScenario(r *rand.Rand, sc *scenario, usize int) *scenario {
+	var vn []int
+	var vp []*pval
+	var vo []*oval
+	for i := range nodes {
+		vn = append(vn, i)
+	}
+	as := append([]anchor{}, anchorPool[:3]...)
+	for _, i := range r.Perm(len(anchorPool) - 3)[:5] {
+		as = append(as, anchorPool[3+i])
+	}
+	for id := range idStrs {
+		vp = append(vp, mkPred(id, nil))
+		for i := range as {
+			a := as[i]
+			vp = append(vp, mkPred(id, &a))
+		}
+	}
+	for _, n := range vn[:3] {
+		vo = append(vo, mkObj(0, n, nil))
+	}
+	for l := range lits {
+		vo = append(vo, mkObj(1, l, nil))
+	}
+	for _, pi := range r.Perm(len(vp))[:5] {
+		vo = append(vo, mkObj(2, 0, vp[pi]))
+	}
+	hot := vn[r.Intn(len(vn))] // one subject and one predicate id carry most triples: big buckets
+	hotID := r.Intn(len(idStrs))
+	for tries := 0; len(sc.univ) < usize && tries < 20*usize; tries++ {
+		s := vn[r.Intn(len(vn))]
+		if r.Intn(2) == 0 {
+			s = hot
+		}
+		p := vp[r.Intn(len(vp))]
+		if r.Intn(2) == 0 {
+			for p.id != hotID {
+				p = vp[r.Intn(len(vp))]
+			}
+		}
+		sc.addTriple(s, p, vo[r.Intn(len(vo))])
+	}
+	// query pools: the hot components plus a few others, stored and non-stored
+	sc.nodeIx = []int{hot}
+	for _, n := range r.Perm(len(vn))[:2] {
+		if n != hot {
+			sc.nodeIx = append(sc.nodeIx, n)
+		}
+	}
+	sort.Ints(sc.nodeIx)
+	for _, i := range r.Perm(len(vp))[:8] {
+		sc.preds = append(sc.preds, vp[i])
+	}
+	for _, p := range vp {
+		if p.id == hotID && p.a == nil {
+			sc.preds = append(sc.preds, p)
+		}
+	}
+	for _, i := range r.Perm(len(vo))[:6] {
+		sc.objs = append(sc.objs, vo[i])
 	}
 	sc.finish()
 	return sc
@@ -562,7 +630,8 @@ func (sc *scenario) queryFrom(t *tval, k int) query {
 	return query{10, 0, 0}
 }
 
-const chanCap = 256
+// capacity of the result channels: the lookups send while holding the graph lock, the harness drains afterwards
+var chanCap = 256
 
 func errCode(err error) uint64 {
 	m := err.Error()
@@ -821,12 +890,12 @@ func (w *world) observe(res int) jobs {
 	}
 	ob.Graphs = [][]interface{}{}
 	for _, g := range w.objs {
-		mask := uint64(0)
+		mask := new(big.Int)
 		for i, t := range w.sc.univ {
 			ok, err := g.Exist(ctx, t.t)
 			must(err)
 			if ok {
-				mask |= 1 << uint(i)
+				mask.SetBit(mask, i, 1)
 			}
 		}
 		c := make(chan *triple.Triple, chanCap)
@@ -927,6 +996,11 @@ func (w *world) randomOp(r *rand.Rand, stored map[int]map[int]bool, big bool) op
 	if r.Intn(10) == 0 {
 		nb = 6 + r.Intn(6)
 	}
+	if len(sc.univ) > 100 && x < 68 { // wide universe: adds bring in a large part of it
+		nb = len(sc.univ)/4 + r.Intn(len(sc.univ)/2)
+	} else if len(sc.univ) > 100 {
+		nb = r.Intn(40)
+	}
 	var is []int
 	add := x < 68
 	for j := 0; j < nb; j++ {
@@ -959,6 +1033,10 @@ func (sc *scenario) randomLopts(r *rand.Rand) lopts {
 		if r.Intn(2) == 0 && lo.Max > 0 && lo.Offset > 1 { // first pages are the non-empty ones
 			lo.Offset = r.Intn(2)
 		}
+	}
+	if len(sc.univ) > 100 && r.Intn(3) == 0 { // results of hundreds: page sizes around typical buffer sizes
+		lo.Max = []int{63, 64, 65, 127, 128, 129, 255, 256, 257, 100}[r.Intn(10)]
+		lo.Offset = r.Intn(3)
 	}
 	if r.Intn(30) == 0 { // huge values: MaxElements * Offset near and beyond the range of int
 		lo.Max = []int{1 << 31, 1 << 32, 1 << 62, 1<<63 - 1, 3}[r.Intn(5)]
@@ -1070,13 +1148,21 @@ func genHistory(seed int64, idx int, maxops int, usize int, c02, c09 bool, uptoS
 	r := rand.New(rand.NewSource(histSeed(seed, idx)))
 	lkStats = [4]int{}
 	lkDistinct = map[[3]uint64]bool{}
-	sc := randomScenario(r, usize)
+	wide := idx%32 == 9 // every thirty-second history: a universe of 150..300 triples, graphs and results of hundreds
+	if wide {
+		usize = 150 + r.Intn(150)
+	}
+	sc := randomScenario(r, usize, wide)
+	chanCap = len(sc.univ) + 16
 	w := newWorld(sc)
 	out := histOut{Kind: "hist", Idx: idx, Names: sc.nNames, Pools: sc.jPools(), PagesBad: []pageBad{}}
 	out.Universe, out.Strs = sc.jUniverse()
 	nops := 1 + r.Intn(maxops)
 	if r.Intn(4) == 0 {
 		nops = 1 + r.Intn(6)
+	}
+	if wide {
+		nops = 6 + r.Intn(8)
 	}
 	big := idx%8 == 5 // every eighth history alternates full adds and adversarial removes of 63 .. 4097 triples
 	if big {
@@ -1202,7 +1288,7 @@ func (w *world) obsDigest(res int, wl bool, allQ []query, h uint64) uint64 {
 		h = dmix(h, uint64(g))
 	}
 	for _, g := range ob.Graphs {
-		h = dmix(dmix(h, 78), g[0].(uint64))
+		h = dmix(dmix(h, 78), g[0].(*big.Int).Uint64())
 		for _, rk := range g[1].([]int) {
 			h = dmix(h, uint64(rk))
 		}
